@@ -2,7 +2,10 @@ pub mod c01;
 pub mod c02;
 pub mod c03;
 pub mod c04;
+pub mod c06;
 pub mod c07;
+pub mod c08;
+pub mod c09;
 pub mod c10;
 pub mod c13;
 
@@ -19,6 +22,9 @@ pub fn run(ctx: &mut RunCtx) -> i32 {
         "C03" => c03::run(ctx),
         "C07" => c07::run(ctx),
         "C10" => c10::run(ctx),
+        "C08" => c08::run(ctx),
+        "C06" => c06::run(ctx),
+        "C09" => c09::run(ctx),
         other => {
             ctx.say(&format!("unknown property {}", other));
             2
@@ -36,6 +42,9 @@ pub fn replay_fails(v: &Value) -> Option<(bool, String)> {
         "c04" => c04::replay_case(v),
         "c07" => c07::replay_case(v),
         "c10" => c10::replay_case(v),
+        "c08" => c08::replay_case(v),
+        "c06" => c06::replay_case(v),
+        "c09" => c09::replay_case(v),
         "c03-skeleton" | "c03-program" => c03::replay_case(v),
         _ => None,
     }
